@@ -11,9 +11,10 @@ import (
 
 func init() {
 	register("C10", func(r *Report) {
-		r.Explanation = "Decides that the reaping mechanism is wired on every path and for every stopping point (it does not depend on which packet was last): (R1) the gateway's connect transaction is a TimedTransaction whose timeout argument is the constant 5 s; (R2) the function that starts the connect exchange spawns the watcher goroutine before any early return, on every path, and the watcher returns a non-nil error other than the clean-shutdown sentinel when the transaction failed with anything but the 'cancelled' sentinel (so the errgroup cancels the session); it waits on the transaction's Done() and on the session context; (R3) the timed transaction's timer callback fails it with ErrTimeout and completion closes Done on every path (C18-R1/C19-R3); (R4) after a successful dial every return of the session function runs the deferred Close of the broker connection. Not decided: the numeric bound '5 s + one poll interval'."
+		r.Explanation = "Decides that the reaping mechanism is wired on every path and for every stopping point (it does not depend on which packet was last): (R1) the gateway's connect transaction is a TimedTransaction whose timeout argument is the constant 5 s; (R2) the function that starts the connect exchange spawns the watcher goroutine before any early return, on every path, and the watcher returns a non-nil error other than the clean-shutdown sentinel when the transaction failed with anything but the 'cancelled' sentinel (so the errgroup cancels the session); it waits on the transaction's Done() and on the session context; (R3) the timed transaction's timer callback fails it with ErrTimeout and completion closes Done on every path (C18-R1/C19-R3); (R4) after a successful dial every return of the session function runs the deferred Close of the broker connection; (R5) a CONNECT that cancels the pending connect exchange always starts a new one (or ends the session with an error), for every state, keep-alive zero/non-zero and protocol ID: a handler never stays connected to the broker without a running timer. Not decided: the numeric bound '5 s + one poll interval'."
 		r.floor("R1", 1)
 		r.floor("R2", 2)
+		r.floor("R5", 8)
 		r.floor("R4", 1)
 	}, checkC10)
 	register("C13", func(r *Report) {
@@ -226,7 +227,66 @@ func checkC10(c *Ctx, r *Report) {
 	if n3 == 0 {
 		r.undecided("R3", "NewTimedTransaction:timer", "-", "timer of the timed transaction not found")
 	}
+	// R3b: the timer is armed on EVERY path through the constructor (no 'only if timeout > 0')
+	if p := c.SSA[pkTrans].Func("NewTimedTransaction"); p != nil {
+		var af ssa.Instruction
+		allInstrs(p, func(i ssa.Instruction) {
+			if ci, ok := i.(ssa.CallInstruction); ok && calleeName(ci.Common()) == "time.AfterFunc" {
+				af = i
+			}
+		})
+		if af != nil {
+			skip, _ := pathExists(p, nil, func(x ssa.Instruction) bool { _, ok := x.(*ssa.Return); return ok }, func(x ssa.Instruction) bool { return x == af })
+			r.cond(!skip, "R3", "NewTimedTransaction:timer-on-every-path", c.instrPos(af), "every path through the constructor arms the timer",
+				"a path through NewTimedTransaction returns a transaction whose timer was never armed: an exchange built with that timeout value never times out (or a later completion uses a nil timer)")
+		}
+	}
 	c.checkBrokerConnClosed(r, "R4")
+	// R5: a pending exchange is only ever replaced, never just cancelled: every way the CONNECT case completes
+	// (fails) the pending connect transaction either starts a new one (stored, watcher spawned) or ends the
+	// session with an error - otherwise the handler stays half-open with no timer at all
+	m, err := c.newGwModel()
+	if err != nil {
+		r.undecided("R5", "gateway-model", "-", err.Error())
+		return
+	}
+	for _, st := range []int64{0, 1, 2, 3} {
+		for _, dur := range []int64{0, 30} {
+			for _, proto := range []int64{1, 2} {
+				cells := map[string]aval{"state": kint(st), "type:sn": kstr("*packets1.Connect"), "f:packets1.Connect.Duration": kint(dur), "f:packets1.Connect.ProtocolID": kint(proto), "type:tx": kstr("*gateway.connectTransaction")}
+				outs, _ := m.run(m.snDisp, cells)
+				key := fmt.Sprintf("%s/CONNECT(duration=%d,protocol=%d)", stateNames[st], dur, proto)
+				okc := len(outs) > 0
+				detail := ""
+				for _, o := range outs {
+					cancelled, replaced := false, false
+					for _, ev := range o.Events {
+						if ev == "tx.Fail" {
+							cancelled = true
+						}
+						if strings.HasPrefix(ev, "store.StoreByType") {
+							replaced = true
+						}
+					}
+					last := ""
+					if len(o.Ret) > 0 {
+						last = o.Ret[len(o.Ret)-1]
+					}
+					if cancelled && !replaced && last == "nil" {
+						okc = false
+						detail = "the pending connect exchange is cancelled but no new one is started and the session goes on: nothing reaps the handler any more (its broker connection stays open until the gateway stops): " + strings.Join(o.Events, " ; ")
+					}
+				}
+				if okc {
+					r.ok("R5", key, c.pos(m.snDisp.Pos()), firstOutcome(outs))
+				} else if detail == "" {
+					r.undecided("R5", key, c.pos(m.snDisp.Pos()), "no outcome explored")
+				} else {
+					r.bad("R5", key, c.pos(m.snDisp.Pos()), detail)
+				}
+			}
+		}
+	}
 }
 
 // checkConnectWatcher: R2 of C10.
